@@ -158,7 +158,7 @@ struct TCase { int kind; double stallAt; };
 static void run_c14t(long cases) {
     Rng r(g_opts.seed * 3011 + (uint64_t)g_opts.shard);
     struct Setting { int h, b; };
-    std::vector<Setting> settings = {{1, 2}, {2, 1}, {1, 1}, {2, 3}, {2, 2}, {3, 2}, {4, 1}, {1, 4}};   // the last two: far enough apart for "which of the two time-outs was applied" to be told beyond the slack
+    std::vector<Setting> settings = {{1, 2}, {2, 1}, {1, 1}, {2, 3}, {2, 2}, {3, 2}, {4, 1}, {1, 4}, {4, 4}};   // the last two: far enough apart for "which of the two time-outs was applied" to be told beyond the slack
     long idx = g_opts.shard * 100000L;
     for (long rep = 0; rep < cases; rep++)
     for (size_t si = 0; si < settings.size(); si++) {
@@ -173,7 +173,7 @@ static void run_c14t(long cases) {
         std::vector<std::thread> th;
         std::mutex rm; std::vector<std::pair<std::string, std::string>> results;   // (key or "", witness)
         double minT = std::min(H, B);
-        for (int kind = 0; kind < 10; kind++) {
+        for (int kind = 0; kind < 11; kind++) {
             long myidx = idx++;
             th.emplace_back([&, kind, myidx] {
                 std::string kn; std::string key;
@@ -226,6 +226,9 @@ static void run_c14t(long cases) {
                         expect408(B, kn);
                         stopTrickle = true; trickle.join();
                         break; }
+                case 10: { kn = "slow-head-then-stalled-body";   // the head takes most of its time, then the body stalls: the body time-out still counts from the start of the request
+                        c.send_all(head.substr(0, 20)); lv::msleep((int)(minT * 800)); c.send_all(head.substr(20) + body.substr(0, 3));
+                        expect408(B, kn); break; }
                 default: kn = "body-after-header-timeout-within-body-timeout";
                         if (B > H) { c.send_all(head); lv::msleep((int)((H + 0.3) * 1000)); if (lv::now() - t0 < B - 0.4) { c.send_all(body); expect200(kn); } }
                         else { c.send_all(head + body); expect200(kn); }
@@ -242,19 +245,19 @@ static void run_c14t(long cases) {
             count("timeout_cases");
             if (g_samples_left > 0) { g_samples_left--; sample(kv.second); }
         }
-        for (int kind = 0; kind < 10; kind++) g_distinct.add(std::to_string(H) + "|" + std::to_string(B) + "|" + std::to_string(kind) + "|" + std::to_string(workers));
+        for (int kind = 0; kind < 11; kind++) g_distinct.add(std::to_string(H) + "|" + std::to_string(B) + "|" + std::to_string(kind) + "|" + std::to_string(workers));
         ep.shutdown();
     }
 }
 
 // =====================================================================================
 // C08 lifecycle
-struct PeerLife { std::string events; int conn = 0, disc = 0; bool inputAfterDisc = false; };
+struct PeerLife { std::string events; int conn = 0, disc = 0; bool inputAfterDisc = false; std::weak_ptr<Tcp::Peer> obj; };
 static std::map<size_t, PeerLife> g_life;
 struct LifeTcpHandler : public Tcp::Handler {
     PROTOTYPE_OF(Tcp::Handler, LifeTcpHandler)
     void onConnection(const std::shared_ptr<Tcp::Peer>& peer) override { std::lock_guard<std::mutex> g(g_m); PeerLife& l = g_life[peer->getID()]; l.conn++; l.events += 'C'; }
-    void onDisconnection(const std::shared_ptr<Tcp::Peer>& peer) override { std::lock_guard<std::mutex> g(g_m); PeerLife& l = g_life[peer->getID()]; l.disc++; l.events += 'D'; }
+    void onDisconnection(const std::shared_ptr<Tcp::Peer>& peer) override { std::lock_guard<std::mutex> g(g_m); PeerLife& l = g_life[peer->getID()]; l.disc++; l.events += 'D'; l.obj = peer; }
     void onInput(const char* buffer, size_t len, const std::shared_ptr<Tcp::Peer>& peer) override {
         bool big = false;
         { std::lock_guard<std::mutex> g(g_m); PeerLife& l = g_life[peer->getID()]; if (l.disc) l.inputAfterDisc = true; if (l.events.size() < 64) l.events += 'I'; }
@@ -284,7 +287,7 @@ struct LifeHttpHandler : public Http::Handler {
         { std::lock_guard<std::mutex> g(g_m); PeerLife& l = g_life[peer->getID()]; if (l.disc) l.inputAfterDisc = true; if (l.events.size() < 64) l.events += 'R'; }
         // response time-outs of several lengths, also exactly on and around the second, armed and answered before they fire
         if (req.resource().rfind("/armed", 0) == 0) { int ms = atoi(req.query().get("ms").value_or("300").c_str()); response.timeoutAfter(std::chrono::milliseconds(ms)); }
-        if (req.resource() == "/slow") lv::msleep(150);
+        if (req.resource() == "/slow") lv::msleep(atoi(req.query().get("ms").value_or("150").c_str()));
         if (req.resource() == "/stream") {
             // a streamed response written from inside the handler: the peer may reset while it is being flushed
             auto st = response.stream(Http::Code::Ok);
@@ -306,19 +309,25 @@ struct LifeHttpHandler : public Http::Handler {
         if (req.resource() == "/big") { response.send(Http::Code::Ok, std::string(4 << 20, 'z')); return; }
         response.send(Http::Code::Ok, "ok");
     }
-    void onDisconnection(const std::shared_ptr<Tcp::Peer>& peer) override { std::lock_guard<std::mutex> g(g_m); PeerLife& l = g_life[peer->getID()]; l.disc++; l.events += 'D'; }
+    void onDisconnection(const std::shared_ptr<Tcp::Peer>& peer) override { std::lock_guard<std::mutex> g(g_m); PeerLife& l = g_life[peer->getID()]; l.disc++; l.events += 'D'; l.obj = peer; }
 };
-static const char* BEHAVIOUR[] = {"connect-close", "partial-then-close", "exchange-then-close", "half-close-then-read", "reset", "reset-with-pending-response", "silence-until-idle-timeout", "armed-timeout-answered-before", "keepalive-3-requests-then-close", "exchange-then-silence-until-idle-timeout", "slow-request-keeps-worker-busy", "partial-then-immediate-close-while-worker-busy", "send-and-half-close-at-once-while-worker-busy", "request-a-streamed-response-then-reset", "long-poll-then-leave-before-the-response-time-out", "unread-response-then-silence-past-the-idle-time-out-then-close"};
+static const char* BEHAVIOUR[] = {"connect-close", "partial-then-close", "exchange-then-close", "half-close-then-read", "reset", "reset-with-pending-response", "silence-until-idle-timeout", "armed-timeout-answered-before", "keepalive-3-requests-then-close", "exchange-then-silence-until-idle-timeout", "slow-request-keeps-worker-busy", "partial-then-immediate-close-while-worker-busy", "send-and-half-close-at-once-while-worker-busy", "request-a-streamed-response-then-reset", "long-poll-then-leave-before-the-response-time-out", "unread-response-then-silence-past-the-idle-time-out-then-close", "silence-past-the-idle-time-out-then-orderly-close", "slow-request-keeps-worker-busy-past-the-idle-time-out"};
 static std::atomic<int> g_foreign_bytes{0};
+static std::atomic<int> g_own_408{0};
 static std::string g_foreign_detail;
 static void client_behaviour(int port, int b, bool http, Rng& r) {
     lv::Conn c; if (!c.open_to(port, b == 5 || b == 15 ? 2048 : 0)) return;
     std::string buf;
     auto req = [&](const std::string& path) { return http ? "GET " + path + " HTTP/1.1\r\nHost: x\r\nConnection: keep-alive\r\n\r\n" : "hello " + path + "\n"; };
     // the reply must be this connection's own: state left behind by an earlier connection (e.g. its unsent response) must not surface here
+    bool timedOutByServer = false;   // after a 408 the server closes the connection: nothing that follows on it is judged
     auto readReply = [&]() {
         std::string got;
-        if (http) { lv::HttpMsg m = lv::read_response(c, buf, 0, (int)(3000 * lv::load_factor())); got = m.complete ? std::to_string(m.status) + ":" + m.body.substr(0, 16) : "incomplete:" + m.error + ":" + buf.substr(0, 24); buf.clear(); if (got == "200:ok") return; }
+        if (timedOutByServer) return;
+        if (http) { lv::HttpMsg m = lv::read_response(c, buf, 0, (int)(3000 * lv::load_factor())); got = m.complete ? std::to_string(m.status) + ":" + m.body.substr(0, 16) : "incomplete:" + m.error + ":" + buf.substr(0, 24); buf.clear(); if (got == "200:ok") return;
+            // a 408 is this connection's own answer too: a worker kept busy by a slow handler for longer than the (1 s) time-out finds the
+            // request only after the idle scan has run; whether that is timely is C14's business, not a lifecycle matter
+            if (got == "408:") { g_own_408++; timedOutByServer = true; return; } }
         else { double end = lv::now() + 3.0 * lv::load_factor(); while (got.size() < 9 && lv::now() < end) c.read_some(got, 100); if (got.rfind("ok:hello /", 0) == 0) return; }
         if (g_foreign_bytes++ == 0) { std::lock_guard<std::mutex> g(g_m); g_foreign_detail = got.substr(0, 60); }
     };
@@ -333,6 +342,8 @@ static void client_behaviour(int port, int b, bool http, Rng& r) {
     case 7: { static const int MS[] = {300, 999, 1000, 1001, 2000, 60000, 1}; c.send_all(req("/armed?ms=" + std::to_string(r.pick(MS)))); readReply(); break; }
     case 15: {   // a response it never reads, then silence past the idle time-out and a good while longer, then it leaves
         c.send_all(req("/big")); lv::msleep(3200); break; }
+    case 16: lv::msleep(1250); break;   // silent past the idle time-out, then an orderly close - which may reach a busy worker together with the idle scan that has just found it
+    case 17: lv::msleep(r.range(0, 300)); c.send_all(req("/slow?ms=1500")); lv::read_response(c, buf, 0, 6000); break;   // keeps the worker away from its loop for longer than the idle time-out
     case 10: c.send_all(http ? req("/slow") : "SLOW /x\n"); { std::string t; if (http) { lv::read_response(c, buf, 0, 3000); } else c.read_some(t, 1500); } break;
     case 11: lv::msleep(r.range(20, 90)); c.send_all(http ? "POST /x HTTP/1.1\r\nHost: x\r\nContent-Length: 50\r\n\r\nabc" : "hel"); break;   // bytes and FIN reach the busy worker together
     case 12: lv::msleep(r.range(20, 90)); c.send_all(http ? "GET /par" : "hel"); c.half_close(); lv::msleep(300); break;
@@ -351,6 +362,10 @@ static void run_c08(long cases) {
         bool http = round % 2 == 1;
         bool longTimeouts = http && (round % 4 == 3);   // with the idle time-out out of the way a connection the server forgot about stays forgotten
         int workers = r.chance(1, 2) ? 1 : 3;
+        // stall rounds: one client keeps the single worker busy for 1.5 s, longer than the 1 s idle time-out; the others only do things
+        // whose outcome does not depend on being served in time (a worker that is away that long answers late comers 408 and closes)
+        bool stallRound = http && !longTimeouts && r.chance(1, 4);
+        if (stallRound) workers = 1;
         { std::lock_guard<std::mutex> g(g_m); g_life.clear(); SpyTransport::all().clear(); }
         std::unique_ptr<Tcp::Listener> listener; std::unique_ptr<Http::Endpoint> ep; int port;
         if (http) {
@@ -375,10 +390,12 @@ static void run_c08(long cases) {
         int nclients = r.range(1, 24);
         std::vector<int> behaviours;
         std::vector<std::thread> th;
+        if (stallRound) nclients = std::max(nclients, 3);
         for (int k = 0; k < nclients; k++) {
-            int b = r.range(0, 15);
-            if (k == 0 && r.chance(1, 2)) b = 10;
-            if (b == 15 && (!http || longTimeouts)) b = 5;
+            int b = r.range(0, 16);
+            if (stallRound) { static const int QUIET[] = {0, 1, 4, 16, 16, 16, 12, 11}; b = k == 0 ? 17 : r.pick(QUIET); }
+            if (!stallRound && k == 0 && r.chance(1, 2)) b = 10;
+            if ((b == 15 || b == 16) && (!http || longTimeouts)) b = 5;
             if (g_opts.num("behaviour", -1) >= 0) b = (int)g_opts.num("behaviour", -1);
             if (!http && (b == 6 || b == 7 || b == 9)) b = r.range(0, 5);
             if (longTimeouts && (b == 6 || b == 9)) b = r.range(10, 12);   // idle time-out / response timers exist on the HTTP endpoint only
@@ -413,6 +430,10 @@ static void run_c08(long cases) {
                 if (!key.empty()) wt = Json().num("i", idx).str("phase", "c08").str("server", srv).str("behaviours", bt).str("peer_events", l.events).done();
             }
             if (key.empty() && !http) for (auto* t : SpyTransport::all()) if (t->peerCount() != 0) key = "c08:peer-table-not-empty:tcp";
+            // per-connection state is released: the Peer object of a connection the handler was told is gone must not be kept alive
+            // by the framework (parked response writers hold it weakly)
+            if (key.empty()) { int alive = 0; for (int w = 0; w < 40; w++) { alive = 0; for (auto& kv : g_life) if (kv.second.disc > 0 && !kv.second.obj.expired()) alive++; if (!alive) break; g_m.unlock(); lv::msleep(25); g_m.lock(); }
+                if (alive) { key = "c08:peer-object-kept-after-disconnection:" + srv; wt = Json().num("i", idx).str("phase", "c08").str("server", srv).str("behaviours", bt).num("peer_objects_alive", alive).done(); } }
             if (key.empty() && (long)g_life.size() > accepts) key = "c08:more-peers-than-accepts:" + srv;
         }
         (void)closes; (void)stillOwned;
